@@ -33,6 +33,13 @@ def gen(ctx, n, progs):
             for p1 in range(1, 26 if ctx.quick() else 60):
                 for p2 in (1, 2, 3, 5):
                     out.append((prog, parking_ops(th, v, p1, 1, p2, 1, runner=ups[0])))
+    # nested sections: thread 0 is inside its outer section, an updater is n1 steps into its grace period (flipped, waiting for thread 0, possibly asleep), thread 0
+    # takes a nested lock (and optionally leaves it), another reader's outermost unlock wakes the updater, the updater runs on: it must still wait for the OUTER section
+    if any(p.startswith('(r(q))') for p in progs):
+        prog = '(r(q))/(q)(r)/S/S'
+        for n1 in (20, 35, 50, 70, 100, 140):
+            for inner in ('>0', '>0>0', '>0>0>0'):
+                out.append((prog, '>0' + '2c' * n1 + inner + '>1>1>1' + '2c' * 200 + '>0>0>0>0'))
     while len(out) < n:
         prog = ctx.rng.choice(progs); th = [str(i) for i in range(prog.count('/') + 1)]
         out.append((prog, bursty(ctx.rng, th, lo=40, hi=400, flush=ctx.rng.choice([0.0, 0.02, 0.1, 0.3]), means=(1, 3, 10, 30, 60))))
